@@ -215,6 +215,11 @@ def update_case(name, backward=True):
         Claim("the two start nodes carry the same time", first_is_departure, role="start_nodes"),
         Claim("step durations stay non-negative", durations_kept, role="durations_nonneg"),
         Claim("the passes' own asserts never fire", None, when="nopanic", role="no_panic"),
+        # the real graph has to lie inside the domain the durations above are quantified over (and the property asks for it directly)
+        Claim("the step durations construction produced for this scenario are finite and non-negative",
+              lambda c: all(isinstance(e["time_to_next"], (int, float)) and e["time_to_next"] >= 0 for e in pre), when="any", role="constructed_durations_nonneg"),
+        Claim("in the graph construction produced, an alternate's first step is not shorter than the primary's at every split node (the stated domain assumption)",
+              lambda c: all(pre[e["idx_next_alt"]]["time_to_next"] >= e["time_to_next"] - 1e-9 for e in pre if e["idx_next_alt"] != 0), when="any", role="constructed_split_assumption"),
     ]
     if start_split and backward:
         claims.insert(3, Claim("scheduled time = primary predecessor's time + duration on the edge out of the start node", primary_equation_on(lambda p: p == 1), role="start_split_primary_equation"))
